@@ -139,6 +139,18 @@ def sh(cmd, cwd=None, timeout=None, env=None):
     return p.returncode, p.stdout.decode("utf-8", "replace")
 
 
+class SourceDrift(Exception):
+    """Raised by a translator when the source no longer has the textual shape it expects for a part that is ONLY a
+    convenience tie (line-presence / body-shape checks, a function that left the subset of tools/rs2lean.py), while
+    everything it could still regenerate is passed along in `files`.  The runner regenerates those files, records the
+    message as a note in the evidence (`source_tie_notes`) and relies on the bit-exact correspondence for the part
+    that could not be re-translated; it is NOT by itself a proof alarm (no proof obligation failed to check)."""
+
+    def __init__(self, msg, files=None):
+        super().__init__(msg)
+        self.files = files or {}
+
+
 class Failure:
     """An oracle failure: the property predicate is false on an implementation output."""
 
